@@ -144,7 +144,7 @@ class CFG:
             outs = self._block(st.body, [(n, "loop")])
             _, breaks = self._loops.pop()
             for o, lab in outs:
-                self._edge(o, n, "back")
+                self._edge(o, n, f"{lab}|back" if lab else "back")
             after = self._block(st.orelse, [(n, "done")]) if st.orelse else [(n, "done")]
             return after + breaks
         if isinstance(st, ast.With):
